@@ -8,22 +8,24 @@ from units import render as R
 def build(repo, spec_dir, canary=False):
     b = Builder('format', repo, canary)
     LITS = R.spec_literals(spec_dir)
-    b.emit('use vstd::prelude::*;\nverus! {')
+    b.emit('#![feature(allocator_api)]\nuse vstd::prelude::*;\nuse std::collections::BTreeSet;\nverus! {')
     b.type_item('quantifier.rs', r'^pub enum Quantifier \{')
     b.type_item('component.rs', r'^pub\(crate\) enum Component \{')
     b.type_item('grapheme.rs', r'^pub struct Grapheme \{')
+    b.type_item('config.rs', r'^pub struct RegExpConfig \{')
+    b.type_item('cluster.rs', r"^pub struct GraphemeCluster<'a> \{")
+    b.type_item('expression.rs', r"^pub enum Expression<'a> \{")
     b.emit('pub mod fm {\nuse super::*;'); b.emit(open(spec_dir + '/fmt_model.rs').read()); b.emit('}\nuse fm::*;')
     b.emit('pub mod sp {\nuse super::*;'); b.emit(open(spec_dir + '/render.rs').read()); b.emit('}\nuse sp::*;')
     b.emit('''pub assume_specification [<Quantifier as Clone>::clone] (e: &Quantifier) -> (r: Quantifier) ensures r == *e;
 impl VxShow for Quantifier { open spec fn shown(&self) -> Seq<char> { quant_plain(*self) } #[verifier::external_body] fn vx_show(&self) -> (r: String) { unimplemented!() } }
 impl VxShow for Component { open spec fn shown(&self) -> Seq<char> { plain(*self) } #[verifier::external_body] fn vx_show(&self) -> (r: String) { unimplemented!() } }
 // the expression tree is opaque here: its text, precedence and single-code-point test are uninterpreted
-pub struct Expression { pub x: u8 }
 pub uninterp spec fn expr_text(e: Expression) -> Seq<char>;
 pub uninterp spec fn prec(e: Expression) -> u8;
 pub uninterp spec fn single_cp(e: Expression) -> bool;
-impl VxShow for Expression { open spec fn shown(&self) -> Seq<char> { expr_text(*self) } #[verifier::external_body] fn vx_show(&self) -> (r: String) { unimplemented!() } }
-impl Expression {
+impl<'a> VxShow for Expression<'a> { open spec fn shown(&self) -> Seq<char> { expr_text(*self) } #[verifier::external_body] fn vx_show(&self) -> (r: String) { unimplemented!() } }
+impl<'a> Expression<'a> {
     #[verifier::external_body] pub fn precedence(&self) -> (r: u8) ensures r == prec(*self) { unimplemented!() }
     #[verifier::external_body] pub fn is_single_codepoint(&self) -> (r: bool) ensures r == single_cp(*self) { unimplemented!() }
 }
